@@ -365,6 +365,10 @@ class TCPTransport(Transport):
             self._readonlyNodesCounter += 1
 
         self._unknownConnections.discard(conn)
+        oldConn = self._connections.pop(node, None)
+        if oldConn is not None and oldConn is not conn:
+            # The superseded connection must not keep delivering messages as coming from this node.
+            oldConn.disconnect()
         self._connections[node] = conn
         conn.setOnMessageReceivedCallback(functools.partial(self._onMessageReceived, node))
         if not readonly:
